@@ -264,6 +264,16 @@ def trace_of(obs):
 def replay(pid, path):
     data = json.load(open(path))
     sc = data.get("scenario")
+    if sc and data.get("slice") == "K":
+        import slice_k as K
+        real, _d = K.construct(sc)
+        print("constructor:", real, "| table cyclic:", K.is_cyclic(sc))
+        if real == "ACCEPT" and K.is_cyclic(sc):
+            print("calling it:", K.demonstrate_hang(sc))
+            print("VIOLATION property=%s replay=%s" % (pid, path))
+            return 1
+        print("no violation of %s on this table" % pid)
+        return 0
     if not sc or "specs" not in sc:
         print("replay file carries no slice-S scenario; re-run the check instead")
         return 2
@@ -329,8 +339,23 @@ reg("C06", ["Props.C06_best_ready", "Props.C07_cp_is_own_plus_distinct_descendan
     None, ASSUME_S)
 reg("C08", ["Props.C08_partial", "Props.C08_mixed_witness", "TM.w_run", "TM.w_blocks"] + COMMON_S_THEOREMS,
     lambda pid, tier, seed: run_S(pid, tier, seed), ASSUME_S)
-reg("C09", ["Props.C09_bound", "Props.C09_progress", "TM.M_step", "TM.rank_decreases", "Props.C09_traced_dag_terminates"] + COMMON_S_THEOREMS,
-    lambda pid, tier, seed: run_S(pid, tier, seed), ASSUME_S)
+def run_S_and_K(pid, tier, seed):
+    """C09: the scheduler slice, plus dependency tables handed to the constructor directly (cyclic ones included)."""
+    import slice_k as K
+    cov, fs, searcher = run_S(pid, tier, seed)
+    kstats, kfs = K.run(pid, tier, seed, 120 if tier == "quick" else 1500)
+    cov["handbuilt_tables"] = kstats
+    cov["evaluations"] += kstats["tables"]
+    cov["traces_validated_against_impl"] = cov.get("traces_validated_against_impl", 0) + kstats["tables"]
+    cov["rule"] = cov.get("rule", "") + ("; plus hand-built dependency tables given to the DAG / AsyncDAG constructor in a random listing "
+                                         "order (acyclic, back edges, self-loops, 2-cycles, isolated and terminal cycles): accept/refuse compared "
+                                         "with TM.acyclicB, accepted tables run under scripted completion orders")
+    return cov, fs + kfs, searcher
+
+
+reg("C09", ["Props.C09_bound", "Props.C09_progress", "TM.M_step", "TM.rank_decreases", "Props.C09_traced_dag_terminates",
+            "Props.C09_build_check_exact", "Props.C09_every_cycle_refused", "Props.C09_accepted_table_terminates"] + COMMON_S_THEOREMS,
+    run_S_and_K, ASSUME_S)
 def invalid_argument_calls():
     """C14 'a call raises only because of a node failure or invalid arguments': the two invalid-argument
     cases must raise their documented exception and start nothing."""
@@ -430,6 +455,28 @@ def choose_selection(rng, sc, pos, preds):
         return al
 
     R = X = T = None
+    specs_ = sc["specs"]
+    pairs = [(x, p) for x in range(n) if specs_[x]["debug"] for p in specs_[x]["preds"] if not specs_[p]["debug"]]
+    if pairs and rng.random() < 0.3:
+        # directed: the target is a parent of a debug node (so the debug node hangs below a LEAF of the
+        # selection and is a candidate for being pulled in), the roots are SOME of the target's root ancestors
+        # (preferably not all of them: the target then has ancestors outside the selection)
+        def anc_roots_of(p):
+            anc = nx.ancestors(g, P[p]) | {P[p]}
+            return [r_ for r_ in roots if P[r_] in anc]
+        rich = [(x, p) for x, p in pairs if len(anc_roots_of(p)) >= 2]
+        x, p = rng.choice(rich if rich and rng.random() < 0.8 else pairs)
+        anc_roots = anc_roots_of(p)
+        T = [G.alias_for(rng, sc, p)]
+        if anc_roots and rng.random() < 0.8:
+            k_ = rng.randint(1, len(anc_roots) - 1) if len(anc_roots) >= 2 and rng.random() < 0.8 else rng.randint(1, len(anc_roots))
+            R = [G.alias_for(rng, sc, i) for i in rng.sample(anc_roots, k_)]
+        try:
+            resolve(R), resolve(T)
+        except ValueError:
+            return R, X, T, None
+        sc["_directed_debug"] = True
+        return R, X, T, resolve
     if roots and rng.random() < 0.4:
         rs = rng.sample(roots, rng.randint(1, len(roots)))
         R = with_dups([G.alias_for(rng, sc, i) for i in rs], rs)
@@ -546,8 +593,10 @@ def run_G(pid, tier, seed):
         # selections
         for j in range(B["g_sels"]):
             dbg = rng.random() < 0.5 if pid != "C12" else rng.random() < 0.2
-            G.set_debug(dbg)
             R, X, T, resolve = choose_selection(rng, sc, pos, preds)
+            if sc.pop("_directed_debug", False) and pid != "C12" and rng.random() < 0.6:
+                dbg = True       # the directed shape only matters when debug nodes are pulled in
+            G.set_debug(dbg)
             to_real = lambda al: None if al is None else [G.to_real_alias(None, d, a) for a in al]  # noqa: E731
             try:
                 ex = d.executor(root_nodes=to_real(R), exclude_nodes=to_real(X), target_nodes=to_real(T))
